@@ -2,7 +2,7 @@
 import json, os, re, subprocess
 import common
 
-THEOREMS = ['C14_mul4', 'C14_opt4', 'C14_mul8', 'C14_rs8_mul', 'C14_exp', 'C14_inv', 'C14_log', 'C14_shapes']
+THEOREMS = ['C14_mul4', 'C14_opt4', 'C14_mul8', 'C14_rs8_mul', 'C14_exp', 'C14_inv', 'C14_log', 'C14_shapes', 'C14_regeneration_idempotent']
 MODULE = 'OpenFecVerif.Props.C14'
 
 def tabdump_entry(table, i, j):
@@ -29,7 +29,8 @@ def search_failing_entries():
 def run(res, tier, seed, gen_errs):
     res.rule = ('each obligation is a Lean theorem over the tables regenerated from the sources this run (13 tables: 3 '
                 'multiplication tables of 256x256/256x256/16x16 entries, the 16x256 packed table, 3 exp, 3 log, 3 inverse), '
-                'proved by kernel evaluation over the whole index range; non-trivial = table entries constrained')
+                'proved by kernel evaluation over the whole index range; the run-time tables of the GF(2^8) codec are generated twice and compared; '
+                'non-trivial = table entries constrained')
     ok, log = common.check_lean(res, MODULE, THEOREMS)
     # count what the theorems constrain (measured from the generated shapes)
     import gen, tempfile, shutil
@@ -60,6 +61,13 @@ def run(res, tier, seed, gen_errs):
         bads = search_failing_entries()
     except Exception as e:
         res.notes.append('search failed: %s' % e)
+    if defs.get('RS_REGEN_MISMATCHES', 0):
+        code = defs.get('RS_REGEN_FIRST', 0); tname = {1: 'of_rs_gf_exp', 2: 'of_rs_inverse', 3: 'of_rs_gf_log', 4: 'of_gf_mul_table'}.get(code // 1000000, '?')
+        idx = code % 1000000
+        res.violation('c14:regeneration:%s' % tname, 'after a second of_rs_init() %d table entries of the GF(2^8) codec differ from the first generation (which '
+                      'agrees with field arithmetic); first difference: %s[%s]' % (defs['RS_REGEN_MISMATCHES'], tname, ('%d][%d' % (idx // 256, idx % 256)) if tname == 'of_gf_mul_table' else idx),
+                      replay={'history': 'of_rs_init(); of_rs_init();', 'table': tname, 'index': idx, 'mismatches': defs['RS_REGEN_MISMATCHES'],
+                              'reproduce': 'harness/tabdump.c prints "def RS_REGEN_MISMATCHES <n>"'})
     if bads:
         for b in bads[:20]:
             try:
